@@ -46,10 +46,9 @@ def shards(tier, seed):
 
 
 def _allow(sh, key, n=6):
-    k = "cell:finding-class-" + key
-    if sh.counters.get(k, 0) >= n:
-        return False
-    sh.count(k)
+    # every finding these classes were rationed for has been repaired in the repository
+    # (known_findings.json "fixed"): the classes are generated without a cap again
+    sh.count("cell:finding-class-" + key)
     return True
 
 
